@@ -89,14 +89,20 @@ def chain(E, R, L, testnet, hard_at):
         E.check_eq(b.fingerprint(), a.fingerprint(), "level %d: fingerprint" % j)
         E.check_eq(cm.b58_payload(E, R, b.extended_public_key()), cm.b58_payload(E, R, a.extended_public_key()),
                    "level %d: serialised extended public key" % j)
-    # derive_path in one go gives the same leaf
-    leaf = E.run(R.bip32.PubKeyNode(key=E.H.sec(k), chain_code=c, index=pidx, depth=depth, testnet=testnet,
-                                    parent_fingerprint=fp).derive_path, list(idxs))
+    # derive_path in one go gives the same leaf -- also when the same list object is used twice
+    same_list = list(idxs)
+    root2 = R.bip32.PubKeyNode(key=E.H.sec(k), chain_code=c, index=pidx, depth=depth, testnet=testnet, parent_fingerprint=fp)
+    leaf = E.run(root2.derive_path, same_list)
     if isinstance(leaf, Raised):
         E.fail("derive_path on public data returns the leaf")
         return "raised"
     E.check_eq([leaf.key, leaf.chain_code, leaf.depth, leaf.index], [b.key, b.chain_code, b.depth, b.index],
                "derive_path == iterated ckd (public)")
+    E.check(len(same_list) == L and all(x is y for x, y in zip(same_list, idxs)), "derive_path leaves the caller's index list unchanged")
+    leaf2 = E.run(R.bip32.PubKeyNode(key=E.H.sec(k), chain_code=c, index=pidx, depth=depth, testnet=testnet,
+                                     parent_fingerprint=fp).derive_path, same_list)
+    E.check(not isinstance(leaf2, Raised) and E.eq([leaf2.key, leaf2.chain_code, leaf2.depth, leaf2.index], [b.key, b.chain_code, b.depth, b.index]),
+            "a second derivation with the same list object gives the same node (public)")
     return "ok"
 
 
